@@ -366,6 +366,17 @@ def spec_sum(items, p):
         total = list(total)
     for v in vals:
         total = total + v
+    if isinstance(total, float):
+        # float addition is not associative and Python's sum() may compensate: accept a rounding-sized band
+        exact = Fraction(p["start"]) + sum((Fraction(v) for v in vals), Fraction(0))
+        scale = max([abs(Fraction(v)) for v in vals] + [abs(Fraction(p["start"])), Fraction(1)])
+
+        def pred(got):
+            if not isinstance(got, float) or abs(Fraction(got) - exact) > scale * (len(vals) + 1) / 2 ** 50:
+                return "expected about %r, got %r" % (float(exact), got)
+            return None
+
+        return Pred(pred)
     return Exact(total)
 
 
